@@ -7,6 +7,8 @@ import (
 	"fmt"
 	"math/big"
 	"strings"
+	"sync/atomic"
+	"unicode/utf8"
 
 	"github.com/gcash/bchutil"
 
@@ -429,13 +431,24 @@ func c02EvalPub(w *mc.W, cas c02Pub) {
 
 // c02Str: arbitrary literal strings (vectors from the CashAddr spec and hand-made edge cases).
 type c02Str struct {
-	Net string `json:"net"`
-	S   string `json:"s"`
+	Net  string `json:"net"`
+	S    string `json:"s"`
+	SHex string `json:"s_hex,omitempty"` // set instead of S when the string is not valid UTF-8
+}
+
+func c02StrOf(net, s string) c02Str {
+	if !utf8.ValidString(s) {
+		return c02Str{Net: net, SHex: mc.Hex([]byte(s))}
+	}
+	return c02Str{Net: net, S: s}
 }
 
 func c02EvalStr(w *mc.W, cas c02Str) {
 	c := w.Ctx()
 	w.Eval()
+	if cas.SHex != "" {
+		cas.S = string(mc.UnHex(cas.SHex))
+	}
 	var a bchutil.Address
 	var err error
 	if msg, p := mc.Guard(func() { a, err = bchutil.DecodeAddress(cas.S, netParams[cas.Net]) }); p {
@@ -587,8 +600,63 @@ func runC02(c *mc.Ctx) {
 		c.Space("every byte value / every ASCII-folding rune at every position of valid cashaddr strings", int64(len(subs)))
 		c.ParFor(int64(len(subs)), func(w *mc.W, i int64) {
 			w.State()
-			c02EvalStr(w, c02Str{Net: subs[i].net, S: subs[i].s})
+			c02EvalStr(w, c02StrOf(subs[i].net, subs[i].s))
 		})
+	}
+	// (C3) characters outside the alphabet, with compensation: for every payload position, every
+	// byte value a lenient decoder might take a foreign character for, and every foreign character,
+	// the string such a decoder would accept (see c03_foreign.go).  It must be rejected; if it is
+	// accepted it does not re-encode to itself.
+	{
+		type fj struct {
+			net, prefix, payload string
+			bare                 bool
+		}
+		var jobs []fj
+		h := make([]byte, 20)
+		for i := range h {
+			h[i] = byte(0x0d*i + 7)
+		}
+		jobs = append(jobs, fj{"mainnet", "bitcoincash", ref.CashEncode("bitcoincash", 0, h), false},
+			fj{"mainnet", "bitcoincash", ref.CashEncode("bitcoincash", 1, h), true},
+			fj{"regtest", "bchreg", ref.CashEncode("bchreg", 0, h), true})
+		if c.Thorough() {
+			h32 := append(append([]byte{}, h...), h[:12]...)
+			jobs = append(jobs, fj{"testnet3", "bchtest", ref.CashEncode("bchtest", 1, h32), false},
+				fj{"mainnet", "simpleledger", ref.CashEncode("simpleledger", 0, h), false})
+		}
+		isLetter := [256]bool{}
+		for i := 0; i < len(ref.CashCharset); i++ {
+			isLetter[ref.CashCharset[i]] = true
+		}
+		var calls atomic.Int64
+		for _, jb := range jobs {
+			jb := jb
+			L := len(jb.payload)
+			c.ParFor(int64(L), func(w *mc.W, ji int64) {
+				tmpls, _ := c03ForeignTemplates("cashaddr", jb.prefix, ":", jb.payload, ref.CashCharset, 8, int(ji))
+				off := len(jb.prefix) + 1
+				n := int64(0)
+				for _, t := range tmpls {
+					w.State()
+					s := append([]byte{}, t.str...)
+					for cb := 0; cb < 256; cb++ {
+						if isLetter[byte(cb)] {
+							continue
+						}
+						s[off+int(ji)] = byte(cb)
+						str := string(s)
+						if jb.bare {
+							str = str[off:]
+						}
+						n++
+						c02EvalStr(w, c02StrOf(jb.net, str))
+					}
+				}
+				calls.Add(n)
+			})
+		}
+		c.Space("cashaddr strings with a character outside the alphabet and the checksum a lenient decoder would expect: position x byte value 0..255 x foreign character", calls.Load())
 	}
 
 	// (D) literals
